@@ -2,6 +2,7 @@
 C03 — every change is a legal change: neighbours swap, nobody jumps, covers stay.
 -/
 import Wheatley.Lemmas.Gen
+import Wheatley.Lemmas.Places
 namespace Wheatley.C03
 
 /-- `r'` is obtained from `r` by a legal change of the given stage. -/
@@ -51,6 +52,22 @@ theorem gen_rows_covers (g : Gen) (hp : g.Permuting) (hrow : g.row = g.startRow)
     ops g hp
     (fun r places h => ⟨(permute_length _ _ _).trans h.1, (permute_drop _ _ _).trans h.2⟩)
     ⟨rfl, rfl⟩ (by rw [hrow]; exact ⟨rfl, rfl⟩)
+
+/-- **Every place named in the notation is made** when the change is parity-consistent (before every
+named place an even number of places are unnamed, counting from place 1 — or from place 2 when the
+lowest named place is even and the lead is implied): the bell in that place stays. -/
+theorem named_places_made (stage : Nat) (row : Row) (P : Places)
+    (hc : Consistent stage P (if implicitLead P then 2 else 1)) (p : Nat) (hp : p ∈ P) (h1 : 1 ≤ p)
+    (hps : p ≤ stage) : (permute stage row P)[p - 1]? = row[p - 1]? :=
+  permute_makes_place stage row P hc p hp h1 hps
+
+/-- The hypothesis is decidable on concrete notations and satisfied by the usual ones, e.g. `14` and
+`1234` on six (and not by the inconsistent `13`). -/
+example : Consistent 6 [1, 4] 1 ∧ Consistent 6 [1, 2, 3, 4] 1 ∧ ¬ Consistent 6 [1, 3] 1 := by
+  refine ⟨?_, ?_, ?_⟩
+  · intro q hq _ _; simp at hq; rcases hq with rfl | rfl <;> decide
+  · intro q hq _ _; simp at hq; rcases hq with rfl | rfl | rfl | rfl <;> decide
+  · intro h; have := h 3 (by simp) (by omega) (by omega); revert this; decide
 
 /-! Non-vacuity: a Dixon's Bob Minor step with a Single pending is an instance. -/
 example : ∃ g g' r c, mkDixon 6 none = some g ∧ g.Permuting ∧
